@@ -197,9 +197,12 @@ def gen_mask(s: Choices, ds, kinds=("none", "bool", "slice", "positions")):
             v = s.draw(n + 2)
             return v if k in (1, 2) else -v
         return {"kind": "slice", "start": bound(), "stop": bound()}
-    style = s.weighted([(3, "sorted_unique"), (2, "unsorted"), (2, "repeated")])
+    style = s.weighted([(3, "sorted_unique"), (2, "unsorted"), (2, "repeated"), (2, "negative")])
     m = s.draw(n + 2)
-    if style == "sorted_unique":
+    if style == "negative":
+        # positions counted from the end mixed with ordinary ones (array-indexing semantics)
+        pos = [s.draw(n) - (n if s.draw(2) else 0) for _ in range(m + 1)]
+    elif style == "sorted_unique":
         pos = sorted(set(s.draw(n) for _ in range(m)))
     elif style == "unsorted":
         pos = list(dict.fromkeys(s.draw(n) for _ in range(m)))
@@ -218,7 +221,7 @@ def mask_rows(ds, mask):
         return [i for i, b in enumerate(mask["bits"]) if b]
     if k == "slice":
         return list(range(n))[slice(mask["start"], mask["stop"])]
-    return list(mask["pos"])
+    return [p % n if n else p for p in mask["pos"]]
 
 
 # ---------------------------------------------------------------------------
